@@ -125,6 +125,10 @@ package runner
 //@ func (*runner.runner).getTarget
 //@   requires r != nil
 //@   ensures  result != nil
+//@   ensures  registered: smap[r][iface(label)] == iface(result)
+//@   ensures  unique: old(smap)[r][iface(label)] != nil ==> iface(result) == old(smap)[r][iface(label)]
+//@   ensures  grow: forall o: ref, k: value :: old(smap)[o][k] != nil ==> smap[o][k] == old(smap)[o][k]
+//@   modifies smap
 
 // C05 (soundness half): request edges and reachability as ghost relations.
 //   req(a,b)   - target a published b in its waiting list during this build
